@@ -182,16 +182,16 @@ Ltac mstep :=
 Ltac open_call c s :=
   unfold run_call;
   destruct s as [oc os cx en tl aq lr tc bk tf];
-  destruct c as [|[xp xt xs xq xy xh xz]|cap| | | |kb|kp vp|uv];
-  try (destruct cx as [[nt ns np ny nz ct cs cp cy cb ht]|]);
-  cbv [call_body cam_open cam_load cam_start cam_stop cam_close cam_params cam_bank cam_poke cam_user params_ctxt
+  destruct c as [|[xp xt xs xq xy xh xz xm]|cap| | | |kb|kp vp|uv|hb];
+  try (destruct cx as [[nt ns np ny nz nm ct cs cp cy cb ht]|]);
+  cbv [call_body cam_open cam_load cam_start cam_stop cam_close cam_params cam_bank cam_poke cam_user cam_hold tl_read_back params_ctxt
        bindM get need ret fail panic do_op emit ctxt_loaded].
 
 Ltac open_state s :=
   unfold run_call;
   destruct s as [oc os cx en tl aq lr tc bk tf];
-  try (destruct cx as [[nt ns np ny nz ct cs cp cy cb ht]|]);
-  cbv [call_body cam_open cam_load cam_start cam_stop cam_close cam_params cam_bank cam_poke cam_user params_ctxt
+  try (destruct cx as [[nt ns np ny nz nm ct cs cp cy cb ht]|]);
+  cbv [call_body cam_open cam_load cam_start cam_stop cam_close cam_params cam_bank cam_poke cam_user cam_hold tl_read_back params_ctxt
        bindM get need ret fail panic do_op emit ctxt_loaded].
 
 Ltac crunch := repeat mstep; cbn -[Z.eqb Z.b2z].
@@ -515,7 +515,7 @@ Qed.
 (* a description lacking AcquisitionStop: outside the property (the description is assumed to
    define the three nodes); recorded to show the hypothesis of close_clean is needed *)
 Lemma close_needs_nodes :
-  let x := {| x_parses := true; x_tl := true; x_start := true; x_stop := false; x_copy := false; x_host := false; x_stop0 := false |} in
+  let x := {| x_parses := true; x_tl := true; x_start := true; x_stop := false; x_copy := false; x_host := false; x_stop0 := false; x_mask := false |} in
   ~ clean (final (run true no_failure ([COpen; CLoad x; CStart 3] ++ [CClose]))).
 Proof. cbv zeta. intros (_ & H & _). vm_compute in H. discriminate H. Qed.
 
@@ -559,12 +559,82 @@ Ltac fs_tac s j :=
     (split; [eexists; reflexivity|]); split; reflexivity.
 
 (* call by call (the case analysis of start, stop and close is the bulk of it) *)
+(* start, stop and close once more by the kind of TLParamsLocked: P = not a <MaskedIntReg>; a <MaskedIntReg> whose
+   register is cached (C) / not cached (N: it is read back first) *)
+Definition mk_P (c : ctx) : Prop := n_mask c = false.
+Definition mk_C (c : ctx) : Prop := n_mask c = true /\ exists b, c_tl c = Some b.
+Definition mk_N (c : ctx) : Prop := n_mask c = true /\ c_tl c = None.
+
+Ltac use_kind H :=
+  let K := fresh "K" in let K2 := fresh "K" in let b := fresh "b" in
+  try (pose proof (H _ eq_refl) as K; unfold mk_P, mk_C, mk_N in K; cbn [n_mask c_tl] in K;
+       match type of K with
+       | _ /\ (exists _, _) => destruct K as [K [b K2]]; subst
+       | _ /\ _ => destruct K as [K K2]; subst
+       | _ = _ => subst
+       end); clear H.
+
+Ltac fs_tac_m s j H :=
+  let Hj := fresh "Hj" in let Hlt := fresh "Hlt" in let Hn := fresh "Hn" in
+  unfold failure_stops_at; intros [Hj Hlt]; open_state s; use_kind H; repeat mstep0;
+    cbn -[Z.eqb Z.b2z firstn nth_error Nat.lt lt]; intros Hn;
+    try (exfalso; lia); repeat (destruct j as [|j]; [|try (exfalso; lia)]);
+    repeat fstep Hj Hlt; cbn; eexists;
+    (split; [reflexivity|]); (split; [reflexivity|]); (split; [reflexivity|]);
+    (split; [eexists; reflexivity|]); split; reflexivity.
+
+Lemma kind_cases s :
+  (forall c, ctxt s = Some c -> mk_P c) \/ (forall c, ctxt s = Some c -> mk_C c) \/ (forall c, ctxt s = Some c -> mk_N c).
+Proof.
+  destruct (ctxt s) as [c|]; [|left; intros c H; discriminate H].
+  unfold mk_P, mk_C, mk_N. destruct (n_mask c) eqn:E; [|left; intros c' H; injection H as <-; exact E].
+  right. destruct (c_tl c) as [b|] eqn:E2; [left|right]; intros c' H; injection H as <-;
+    (split; [exact E|]); [exists b; exact E2|exact E2].
+Qed.
+
+Lemma failure_stops_start_P fx cap plc s j cls :
+  (forall c, ctxt s = Some c -> mk_P c) -> failure_stops_at fx (CStart cap) plc s j cls.
+Proof. intros H. fs_tac_m s j H. Qed.
+Lemma failure_stops_start_C fx cap plc s j cls :
+  (forall c, ctxt s = Some c -> mk_C c) -> failure_stops_at fx (CStart cap) plc s j cls.
+Proof. intros H. fs_tac_m s j H. Qed.
+Lemma failure_stops_start_N fx cap plc s j cls :
+  (forall c, ctxt s = Some c -> mk_N c) -> failure_stops_at fx (CStart cap) plc s j cls.
+Proof. intros H. fs_tac_m s j H. Qed.
+Lemma failure_stops_stop_P fx plc s j cls :
+  (forall c, ctxt s = Some c -> mk_P c) -> failure_stops_at fx CStop plc s j cls.
+Proof. intros H. fs_tac_m s j H. Qed.
+Lemma failure_stops_stop_C fx plc s j cls :
+  (forall c, ctxt s = Some c -> mk_C c) -> failure_stops_at fx CStop plc s j cls.
+Proof. intros H. fs_tac_m s j H. Qed.
+Lemma failure_stops_stop_N fx plc s j cls :
+  (forall c, ctxt s = Some c -> mk_N c) -> failure_stops_at fx CStop plc s j cls.
+Proof. intros H. fs_tac_m s j H. Qed.
+Lemma failure_stops_close_P fx plc s j cls :
+  (forall c, ctxt s = Some c -> mk_P c) -> failure_stops_at fx CClose plc s j cls.
+Proof. intros H. fs_tac_m s j H. Qed.
+Lemma failure_stops_close_C fx plc s j cls :
+  (forall c, ctxt s = Some c -> mk_C c) -> failure_stops_at fx CClose plc s j cls.
+Proof. intros H. fs_tac_m s j H. Qed.
+Lemma failure_stops_close_N fx plc s j cls :
+  (forall c, ctxt s = Some c -> mk_N c) -> failure_stops_at fx CClose plc s j cls.
+Proof. intros H. fs_tac_m s j H. Qed.
+
 Lemma failure_stops_start fx cap plc s j cls : failure_stops_at fx (CStart cap) plc s j cls.
-Proof. fs_tac s j. Qed.
+Proof.
+  destruct (kind_cases s) as [H|[H|H]];
+    [apply failure_stops_start_P|apply failure_stops_start_C|apply failure_stops_start_N]; exact H.
+Qed.
 Lemma failure_stops_stop fx plc s j cls : failure_stops_at fx CStop plc s j cls.
-Proof. fs_tac s j. Qed.
+Proof.
+  destruct (kind_cases s) as [H|[H|H]];
+    [apply failure_stops_stop_P|apply failure_stops_stop_C|apply failure_stops_stop_N]; exact H.
+Qed.
 Lemma failure_stops_close fx plc s j cls : failure_stops_at fx CClose plc s j cls.
-Proof. fs_tac s j. Qed.
+Proof.
+  destruct (kind_cases s) as [H|[H|H]];
+    [apply failure_stops_close_P|apply failure_stops_close_C|apply failure_stops_close_N]; exact H.
+Qed.
 
 Lemma failure_stops fx c plc s j cls :
   first_fail plc j cls ->
@@ -577,8 +647,8 @@ Lemma failure_stops fx c plc s j cls :
     r_nops (run_call fx c plc s) = S j.
 Proof.
   change (failure_stops_at fx c plc s j cls).
-  destruct c as [|x|cap| | | |kb|kp vp|uv];
-    [|destruct x as [xp xt xs xq xy xh xz]|apply failure_stops_start|apply failure_stops_stop|apply failure_stops_close| | | |];
+  destruct c as [|x|cap| | | |kb|kp vp|uv|hb];
+    [|destruct x as [xp xt xs xq xy xh xz xm]|apply failure_stops_start|apply failure_stops_stop|apply failure_stops_close| | | | |];
     fs_tac s j.
 Qed.
 
@@ -608,14 +678,31 @@ Qed.
 Definition failed_att (r : callres) : list effect :=
   match r_failed r with Some (e, _) => [e] | None => [] end.
 
+Definition attempts_at fx c plc s : Prop :=
+  NoDup (r_atts (run_call fx c plc s)) /\
+  r_atts (run_call fx c plc s) =
+    filter is_access (r_effs (run_call fx c plc s)) ++ failed_att (run_call fx c plc s) /\
+  length (r_atts (run_call fx c plc s)) = r_nops (run_call fx c plc s).
+
+Ltac at_tac c s H :=
+  unfold attempts_at, failed_att; open_call c s; use_kind H; crunch;
+    (split; [repeat constructor; cbn; intuition discriminate|split; reflexivity]).
+
+Lemma attempts_call_P fx c plc s : (forall c', ctxt s = Some c' -> mk_P c') -> attempts_at fx c plc s.
+Proof. intros H. at_tac c s H. Qed.
+Lemma attempts_call_C fx c plc s : (forall c', ctxt s = Some c' -> mk_C c') -> attempts_at fx c plc s.
+Proof. intros H. at_tac c s H. Qed.
+Lemma attempts_call_N fx c plc s : (forall c', ctxt s = Some c' -> mk_N c') -> attempts_at fx c plc s.
+Proof. intros H. at_tac c s H. Qed.
+
 Lemma attempts_call fx c plc s :
   NoDup (r_atts (run_call fx c plc s)) /\
   r_atts (run_call fx c plc s) =
     filter is_access (r_effs (run_call fx c plc s)) ++ failed_att (run_call fx c plc s) /\
   length (r_atts (run_call fx c plc s)) = r_nops (run_call fx c plc s).
 Proof.
-  unfold failed_att. open_call c s; crunch;
-    (split; [repeat constructor; cbn; intuition discriminate|split; reflexivity]).
+  change (attempts_at fx c plc s).
+  destruct (kind_cases s) as [H|[H|H]]; [apply attempts_call_P|apply attempts_call_C|apply attempts_call_N]; exact H.
 Qed.
 
 (* the only panic: start_streaming(0), as documented *)
@@ -633,14 +720,14 @@ Lemma start_cap0 fx plc s c0 :
     EnableStreaming ::
     match h_tl c0 with
     | Some _ => [HostTL true]
-    | None => SetTLParamsLocked true :: (if n_copy c0 then [CopyTL true] else [])
+    | None => tl_read_effs c0 ++ SetTLParamsLocked true :: (if n_copy c0 then [CopyTL true] else [])
     end ++ [AcqStart] /\
   loop_running (r_cam (run_call fx (CStart 0) plc s)) = false.
 Proof.
-  destruct s as [oc os cx en tl aq lr tc bk tf]. destruct c0 as [nt ns np ny nz ct cs cp cy cb ht].
-  cbn [loop_running ctxt n_tl n_start n_copy h_tl]. intros -> -> -> -> H.
+  destruct s as [oc os cx en tl aq lr tc bk tf]. destruct c0 as [nt ns np ny nz nm ct cs cp cy cb ht].
+  unfold tl_read_effs. cbn [loop_running ctxt n_tl n_start n_copy h_tl n_mask c_tl]. intros -> -> -> -> H.
   unfold run_call.
-  cbv [call_body cam_start params_ctxt bindM get need ret fail panic do_op emit ctxt_loaded].
+  cbv [call_body cam_start tl_read_back params_ctxt bindM get need ret fail panic do_op emit ctxt_loaded].
   crunch; try congruence; repeat split.
 Qed.
 
@@ -682,17 +769,17 @@ Qed.
 
 (* non-vacuity: the intended session, its trace and its final state *)
 Definition xml_good : xmlv := {| x_parses := true; x_tl := true; x_start := true; x_stop := true; x_copy := false;
-                                 x_host := false; x_stop0 := false |}.
+                                 x_host := false; x_stop0 := false; x_mask := false |}.
 Definition xml_copy : xmlv := {| x_parses := true; x_tl := true; x_start := true; x_stop := true; x_copy := true;
-                                 x_host := false; x_stop0 := false |}.
+                                 x_host := false; x_stop0 := false; x_mask := false |}.
 (* TLParamsLocked on the host side, AcquisitionStop with CommandValue 0 *)
 Definition xml_host : xmlv := {| x_parses := true; x_tl := true; x_start := true; x_stop := true; x_copy := false;
-                                 x_host := true; x_stop0 := true |}.
+                                 x_host := true; x_stop0 := true; x_mask := false |}.
 
 Example session_example :
   let rs := run true no_failure [COpen; CLoad xml_good; CStart 3; CParams; CStop; CClose] in
   trace_of rs =
-    [CtrlOpen; StrmOpen; GenApiFetch; LoadCtxt true true true false false false;
+    [CtrlOpen; StrmOpen; GenApiFetch; LoadCtxt true true true false false false false;
      EnableStreaming; SetTLParamsLocked true; AcqStart; LoopStart;
      LoopStop; AcqStop; SetTLParamsLocked false; DisableStreaming;
      CtrlClose; StrmClose; ClearCache] /\
@@ -704,7 +791,7 @@ Proof. vm_compute. repeat split. Qed.
 Example failure_example :
   let rs := run true (plan_of [(2%nat, 2%nat, 1)]) [COpen; CLoad xml_good; CStart 3] in
   map r_res rs = [Ok (-1); Ok (-1); Err (E_GENAPI_DEVICE + 1)] /\
-  trace_of rs = [CtrlOpen; StrmOpen; GenApiFetch; LoadCtxt true true true false false false;
+  trace_of rs = [CtrlOpen; StrmOpen; GenApiFetch; LoadCtxt true true true false false false false;
                  EnableStreaming; SetTLParamsLocked true] /\
   loop_running (final rs) = false.
 Proof. vm_compute. repeat split. Qed.
@@ -915,20 +1002,39 @@ Proof. vm_compute. repeat split. Qed.
    is start having done exactly EnableStreaming and the pValue write (no AcquisitionStart, no loop),
    or stop / close having done exactly LoopStop, AcquisitionStop and the pValue write (no
    DisableStreaming, no close of a channel, no cache clearing) *)
-Lemma copy_failed_call fx c plc s b cls :
+Definition copy_failed_at fx c plc s b cls : Prop :=
   r_failed (run_call fx c plc s) = Some (CopyTL b, cls) ->
   r_res (run_call fx c plc s) = Err (err_of (CopyTL b) cls) /\
   r_atts (run_call fx c plc s) = r_effs (run_call fx c plc s) ++ [CopyTL b] /\
   loop_running (r_cam (run_call fx c plc s)) = false /\
+  exists rb, (rb = [] \/ rb = [GenApiRead]) /\
   ((b = true /\ (exists cap, c = CStart cap) /\
-    r_effs (run_call fx c plc s) = [EnableStreaming; SetTLParamsLocked true]) \/
+    r_effs (run_call fx c plc s) = EnableStreaming :: rb ++ [SetTLParamsLocked true]) \/
    (b = false /\ (c = CStop \/ c = CClose) /\
-    r_effs (run_call fx c plc s) = [LoopStop; AcqStop; SetTLParamsLocked false])).
-Proof.
-  open_call c s; crunch; intros Hf; try discriminate Hf; injection Hf as <- <-;
+    r_effs (run_call fx c plc s) = [LoopStop; AcqStop] ++ rb ++ [SetTLParamsLocked false])).
+
+Ltac cf_tac c s H :=
+  let Hf := fresh "Hf" in
+  unfold copy_failed_at; open_call c s; use_kind H; crunch; intros Hf; try discriminate Hf; injection Hf as <- <-;
     (split; [reflexivity|split; [reflexivity|split; [reflexivity|]]]);
-    first [ left; split; [reflexivity|split; [eexists; reflexivity|reflexivity]]
-          | right; split; [reflexivity|split; [(left; reflexivity) || (right; reflexivity)|reflexivity]] ].
+    first [ exists []; split; [left; reflexivity|];
+            first [ left; split; [reflexivity|split; [eexists; reflexivity|reflexivity]]
+                  | right; split; [reflexivity|split; [(left; reflexivity) || (right; reflexivity)|reflexivity]] ]
+          | exists [GenApiRead]; split; [right; reflexivity|];
+            first [ left; split; [reflexivity|split; [eexists; reflexivity|reflexivity]]
+                  | right; split; [reflexivity|split; [(left; reflexivity) || (right; reflexivity)|reflexivity]] ] ].
+
+Lemma copy_failed_call_P fx c plc s b cls : (forall c', ctxt s = Some c' -> mk_P c') -> copy_failed_at fx c plc s b cls.
+Proof. intros H. cf_tac c s H. Qed.
+Lemma copy_failed_call_C fx c plc s b cls : (forall c', ctxt s = Some c' -> mk_C c') -> copy_failed_at fx c plc s b cls.
+Proof. intros H. cf_tac c s H. Qed.
+Lemma copy_failed_call_N fx c plc s b cls : (forall c', ctxt s = Some c' -> mk_N c') -> copy_failed_at fx c plc s b cls.
+Proof. intros H. cf_tac c s H. Qed.
+
+Lemma copy_failed_call fx c plc s b cls : copy_failed_at fx c plc s b cls.
+Proof.
+  destruct (kind_cases s) as [H|[H|H]];
+    [apply copy_failed_call_P|apply copy_failed_call_C|apply copy_failed_call_N]; exact H.
 Qed.
 
 Theorem copy_failure_stops fx pl cs r b cls :
@@ -936,15 +1042,17 @@ Theorem copy_failure_stops fx pl cs r b cls :
   r_res r = Err (E_GENAPI_DEVICE + cls) /\
   r_atts r = r_effs r ++ [CopyTL b] /\
   loop_running (r_cam r) = false /\
-  ((b = true /\ r_effs r = [EnableStreaming; SetTLParamsLocked true]) \/
-   (b = false /\ r_effs r = [LoopStop; AcqStop; SetTLParamsLocked false])) /\
+  (exists rb, (rb = [] \/ rb = [GenApiRead]) /\
+     ((b = true /\ r_effs r = EnableStreaming :: rb ++ [SetTLParamsLocked true]) \/
+      (b = false /\ r_effs r = [LoopStop; AcqStop] ++ rb ++ [SetTLParamsLocked false]))) /\
   exists k j, pl k j = Some cls /\ r_nops r = S j.
 Proof.
   intros Hin Hf. destruct (run_in _ _ _ _ _ _ Hin) as (c & k & s' & ->).
-  destruct (copy_failed_call _ _ _ _ _ _ Hf) as (Hr & Ha & Hl & Hc).
+  destruct (copy_failed_call _ _ _ _ _ _ Hf) as (Hr & Ha & Hl & rb & Hrb & Hc).
   destruct (failed_res _ _ _ _ _ _ Hf) as [_ (j & Hj & Hn)].
   split; [exact Hr|]. split; [exact Ha|]. split; [exact Hl|]. split.
-  - destruct Hc as [(-> & _ & He)|(-> & _ & He)]; [left|right]; (split; [reflexivity|exact He]).
+  - exists rb. split; [exact Hrb|].
+    destruct Hc as [(-> & _ & He)|(-> & _ & He)]; [left|right]; (split; [reflexivity|exact He]).
   - exists k, j. split; assumption.
 Qed.
 
@@ -953,7 +1061,7 @@ Qed.
 Example copy_example :
   let cs := [COpen; CLoad xml_copy; CStart 3; CStop; CClose] in
   trace_of (run true no_failure cs) =
-    [CtrlOpen; StrmOpen; GenApiFetch; LoadCtxt true true true true false false;
+    [CtrlOpen; StrmOpen; GenApiFetch; LoadCtxt true true true true false false false;
      EnableStreaming; SetTLParamsLocked true; CopyTL true; AcqStart; LoopStart;
      LoopStop; AcqStop; SetTLParamsLocked false; CopyTL false; DisableStreaming;
      CtrlClose; StrmClose; ClearCache] /\
@@ -1055,7 +1163,7 @@ Qed.
 Example host_example :
   let rs := run true no_failure [COpen; CLoad xml_host; CStart 3; CParams; CStop; CParams; CClose] in
   trace_of rs =
-    [CtrlOpen; StrmOpen; GenApiFetch; LoadCtxt true true true false true true;
+    [CtrlOpen; StrmOpen; GenApiFetch; LoadCtxt true true true false true true false;
      EnableStreaming; HostTL true; AcqStart; LoopStart;
      LoopStop; AcqStop; HostTL false; DisableStreaming;
      CtrlClose; StrmClose; ClearCache] /\
@@ -1118,3 +1226,32 @@ Proof.
   apply call_G_res; [|exact Hc|apply Hpl].
   apply (run_G pl cs 0%nat cam0 Hpl G0 Hg).
 Qed.
+
+(* ---------------------------------------------------------------------- *)
+(* TLParamsLocked as a <MaskedIntReg>; a second handle of the context       *)
+Definition xml_mask : xmlv := {| x_parses := true; x_tl := true; x_start := true; x_stop := true; x_copy := false;
+                                 x_host := false; x_stop0 := false; x_mask := true |}.
+
+(* non-vacuity: the register is read back before the first write (not before the second: it is cached by
+   then); a failing read-back ends start_streaming with its error, nothing later is attempted *)
+Example masked_example :
+  let cs := [COpen; CLoad xml_mask; CStart 3; CStop; CClose] in
+  trace_of (run true no_failure cs) =
+    [CtrlOpen; StrmOpen; GenApiFetch; LoadCtxt true true true false false false true;
+     EnableStreaming; GenApiRead; SetTLParamsLocked true; AcqStart; LoopStart;
+     LoopStop; AcqStop; SetTLParamsLocked false; DisableStreaming;
+     CtrlClose; StrmClose; ClearCache] /\
+  clean (final (run true no_failure cs)) /\
+  (let rs := run true (plan_of [(2%nat, 1%nat, 2)]) cs in
+   map r_res rs = [Ok (-1); Ok (-1); Err (E_GENAPI_DEVICE + 2); Ok (-1); Ok (-1)] /\
+   map r_atts rs = [[CtrlOpen; StrmOpen]; [GenApiFetch]; [EnableStreaming; GenApiRead]; []; [CtrlClose; StrmClose]] /\
+   nth 2 (map r_effs rs) [] = [EnableStreaming] /\
+   tl_feat (final rs) = false /\ loop_running (final rs) = false).
+Proof. vm_compute. repeat split; reflexivity. Qed.
+
+(* the application taking / dropping a second handle of the context is no step of the camera: nothing is
+   attempted, nothing changes -- in particular what close drops does not depend on it *)
+Lemma hold_call fx b plc s :
+  run_call fx (CHold b) plc s =
+  {| r_res := Ok (-1); r_effs := []; r_nops := 0; r_atts := []; r_failed := None; r_cam := s |}.
+Proof. reflexivity. Qed.
